@@ -130,8 +130,20 @@ pub fn write_inputs(dir: &str, set: &SampleSet, pr: &Presentation, rng: &mut Rng
                 if let Some(p) = text.iter().position(|&b| b == b'\n') {
                     cuts.push(rng.usize(0, p));
                 }
-                if let Some(p) = text.iter().skip(1).position(|&b| b == b'>') {
-                    cuts.push(p + 2);
+                // member boundaries directly before a header line (every second record start),
+                // directly after its '>' and at the end of a header line
+                for (i, &b) in text.iter().enumerate() {
+                    if b == b'>' && i > 0 {
+                        if rng.chance(1, 2) {
+                            cuts.push(i);
+                        }
+                        if rng.chance(1, 6) {
+                            cuts.push(i + 1);
+                        }
+                    }
+                    if b == b'\n' && rng.chance(1, 40) {
+                        cuts.push(i + 1);
+                    }
                 }
                 if let Some(p) = text.windows(2).position(|w| w == b"\r\n") {
                     cuts.push(p + 1);
